@@ -3,6 +3,8 @@
 //! compaction calls; after every step the canonical heap view of the implementation
 //! (`verif_heap_view` + `reachable_heap_indices`) must equal the model's.
 use crate::oracle;
+#[allow(unused_imports)]
+use crate::oracle::NotifyPendingFallback;
 use num_bigint::BigInt;
 use qverif::run::{Builtins, Exec};
 use qverif::{Ev, Model, Rng};
@@ -579,6 +581,8 @@ pub fn run_case(r: &mut Rng, b: &Builtins, model: &mut Model, ev: &mut Ev, case:
         a
     };
     ask(model, &mut trace, format!("(config dead-roots {})", if oracle::dead_roots_repaired() { 1 } else { 0 }));
+    let select_waits = oracle::select_waits();
+    ask(model, &mut trace, format!("(config select-waits {})", if select_waits { 1 } else { 0 }));
     ask(model, &mut trace, "(init)".into());
     ask(model, &mut trace, format!("(program (canon {}) (builtins {}))", (0..p.arities.len()).map(|x| x.to_string()).collect::<Vec<_>>().join(" "), BUILTIN_NAMES.join(" ")));
     ask(model, &mut trace, param_compat(&p).1);
@@ -590,6 +594,7 @@ pub fn run_case(r: &mut Rng, b: &Builtins, model: &mut Model, ev: &mut Ev, case:
     let mut steps = 0u64;
     let mut next_pid = 1usize;
     let mut nontrivial = false;
+    let mut deferred: Vec<(usize, usize)> = vec![];
     let fail = |what: &str, detail: String, trace: &Vec<String>, found: bool| {
         (
             what.to_string(),
@@ -599,6 +604,16 @@ pub fn run_case(r: &mut Rng, b: &Builtins, model: &mut Model, ev: &mut Ev, case:
         )
     };
     for _ in 0..400 {
+        // a deferred "not finished yet" answer arrives
+        if !deferred.is_empty() && r.chance(1, 4) {
+            let (caller, t) = deferred.remove(0);
+            ex.notify_pending(caller, t);
+            if select_waits {
+                ask(model, &mut trace, format!("(notify-pending {caller} {t})"));
+            }
+            ex.wake_selecting(caller);
+            ev.hit("event:late-pending-answer");
+        }
         // a binary message for a process whose filter call is in flight (the F7 window)
         {
             let mid: Vec<usize> = (0..next_pid)
@@ -824,6 +839,9 @@ pub fn run_case(r: &mut Rng, b: &Builtins, model: &mut Model, ev: &mut Ev, case:
             } else if mout.starts_with("act await") {
                 "await"
             } else if mout == "wait" {
+                if select_waits && deferred.iter().any(|(c, _)| *c == pid) {
+                    ev.hit("select:gate-closed");
+                }
                 "wait"
             } else if sel.map(|s| s.receiving.is_some()).unwrap_or(false) && pr.frames.len() > frames_before {
                 "filter-called"
@@ -915,7 +933,20 @@ pub fn run_case(r: &mut Rng, b: &Builtins, model: &mut Model, ev: &mut Ev, case:
                             ask(model, &mut trace, format!("(notify-failure {caller} {t})"));
                             ev.hit("await:failure");
                         }
-                        None => ev.hit("await:pending"),
+                        None => {
+                            ev.hit("await:pending");
+                            // the answer "not finished yet" (real only with notes/C05-fixes/01);
+                            // sometimes late, so that the select is re-entered with its gate closed
+                            if r.chance(1, 3) {
+                                deferred.push((caller, t));
+                                ev.hit("await:pending-deferred");
+                            } else {
+                                ex.notify_pending(caller, t);
+                                if select_waits {
+                                    ask(model, &mut trace, format!("(notify-pending {caller} {t})"));
+                                }
+                            }
+                        }
                     }
                 }
                 ex.wake_selecting(caller);
@@ -1012,6 +1043,7 @@ pub fn run_recv_loop(r: &mut Rng, b: &Builtins, model: &mut Model, ev: &mut Ev, 
         )
     };
     ask(model, &mut trace, format!("(config dead-roots {})", if oracle::dead_roots_repaired() { 1 } else { 0 }));
+    ask(model, &mut trace, format!("(config select-waits {})", if oracle::select_waits() { 1 } else { 0 }));
     ask(model, &mut trace, "(init)".into());
     ask(model, &mut trace, "(program (canon 0 1 2) (builtins))".into());
     ask(model, &mut trace, "(receivers (fcompat (0 int bin tuple func builtin proc ref) (1 bin tuple)) (empty 1))".into());
